@@ -187,6 +187,7 @@ def run(C, R):
         R.floor('C20.R4 non-member-removal-paths[%s]' % cfg, nnon, 1)
         for name, start, step in (('drain', 'head', 'next'), ('reverse_drain', 'tail', 'prev')):
             fn = one('LinkedList::<T>::' + name)
+            visited = set()
             for path in E.run(fn['path']):
                 R.add_paths(fn['path'], 1)
                 if path.exit != 'return':
@@ -203,8 +204,16 @@ def run(C, R):
                     ok = ok and arg_ok and cleared and var(E, path, cur) == 'Some'
                     cur = I(n + (step,))
                 ok = ok and var(E, path, cur) in ('None', None if len(calls) >= 2 else 'None')
+                visited.add(min(len(calls), 2))
                 report('C20.R1', fn, path, ok, '%s: head = tail = None; nodes visited from %s via %s, links cleared '
                        'before each callback' % (name, start, step))
+            for k in (0, 1, 2):
+                if k in visited:
+                    R.ok('C20.R1', '%s|returns after visiting %s%d node(s)' % (fn['path'], '>= ' if k == 2 else '', k))
+                else:
+                    R.fail('C20.R1', [fn['path'], 'walk-does-not-terminate', str(k)],
+                           '%s has no returning path that visits %s%d node(s): the walk does not advance / end'
+                           % (fn['path'], '>= ' if k == 2 else '', k), '%s:%s' % (fn['file'], fn['line']))
         for name, field in (('peek_first', 'head'), ('peek_first_mut', 'head'), ('peek_last', 'tail'),
                             ('peek_last_mut', 'tail')):
             fn = one('LinkedList::<T>::' + name)
@@ -376,3 +385,245 @@ def run(C, R):
                    'accumulator threaded through every round, result is the last accumulation')
         R.floor('C20.R2 merge-children-paths[%s]' % cfg, nmc, 3)
         R.floor('C20 list-returning-paths[%s]' % cfg, nret, 15)
+        assertion_rule(R, E, F, one, cfg)
+        extra_schemas(R, E, F, one, report, fin, cfg)
+
+
+# ---------------------------------------------------------------------------------------------------------------
+# R5: an internal assertion of the containers may fail only on an INCONSISTENT structure (or a broken
+# precondition).  Every panic path must carry a witness of inconsistency among its facts; a panic path whose facts
+# describe a consistent list / heap is an assertion that fires on legal input.
+def _isv(E, facts, v, want):
+    if v[0] == 'agg':
+        return v[2] == want
+    k = E.variant_known(facts, v)
+    return bool(k and k[0] == 'eq' and k[1] == want)
+
+
+def _eq(E, facts, a, b):
+    """truth of a == b under the facts: 1 / 0 / None"""
+    for key, neg in ((('bin', 'Eq', a, b), 0), (('bin', 'Eq', b, a), 0), (('bin', 'Ne', a, b), 1), (('bin', 'Ne', b, a), 1)):
+        c = const_of(E, facts, key)
+        if c is not None:
+            return c ^ neg
+    for x, y in ((a, b), (b, a)):
+        if x == NONE:
+            if _isv(E, facts, y, 'None'):
+                return 1
+            if _isv(E, facts, y, 'Some'):
+                return 0
+    return None
+
+
+def _ptrs(loc):
+    """the pointer values that designate the node stored at loc (the raw pointer and its re-borrow)"""
+    if len(loc) == 1 and loc[0][0] == 'D':
+        return (loc[0][1], ('ref', loc))
+    return (('ref', loc),)
+
+
+def _eq_ptr(E, facts, opt, loc):
+    """truth of `opt == Some(pointer to loc)`"""
+    for p in _ptrs(loc):
+        r = _eq(E, facts, opt, some(p))
+        if r is not None:
+            return r
+    return None
+
+
+def _node_locs(facts):
+    """locations of nodes mentioned in the facts: every prefix of an init-location that ends before a link field"""
+    out = set()
+
+    def walk(v):
+        if not isinstance(v, tuple):
+            return
+        if v and v[0] == 'init' and isinstance(v[1], tuple):
+            loc = v[1]
+            for i, e in enumerate(loc):
+                if e in ('prev', 'next', 'parent', 'first_child', 'head', 'tail', 'root') and i > 0:
+                    out.add((loc[:i], e))
+            for e in loc:
+                if isinstance(e, tuple):
+                    walk(e)
+        for x in v:
+            if isinstance(x, tuple):
+                walk(x)
+    for k in facts:
+        walk(k)
+    return out
+
+
+def inconsistency_witness(E, path, fn_name):
+    """a reason why the path's entry state is not a consistent list / heap (or breaks the function's documented
+    precondition), or None"""
+    f = path.facts
+    nodes = sorted(set(l for l, _ in _node_locs(f)), key=repr)
+    for X in nodes:
+        if X == SELF:
+            continue
+        par, pv, nx, fc = (I(X + (n,)) for n in ('parent', 'prev', 'next', 'first_child'))
+        # doubly linked: my neighbour points back at me
+        if _isv(E, f, pv, 'Some') and _eq_ptr(E, f, I(D(inner(pv)) + ('next',)), X) == 0:
+            return 'prev.next != node'
+        if _isv(E, f, nx, 'Some') and _eq_ptr(E, f, I(D(inner(nx)) + ('prev',)), X) == 0:
+            return 'next.prev != node'
+        # heap: a node without parent has no siblings
+        if _isv(E, f, par, 'None') and (_isv(E, f, pv, 'Some') or _isv(E, f, nx, 'Some')) and \
+                any(l == X and n == 'parent' for l, n in _node_locs(f)):
+            return 'a root with siblings'
+        # heap: the first child has no previous sibling
+        if _isv(E, f, fc, 'Some') and _isv(E, f, I(D(inner(fc)) + ('prev',)), 'Some'):
+            return 'first child has a previous sibling'
+    h, t, root = I(SELF + ('head',)), I(SELF + ('tail',)), I(SELF + ('root',))
+    if (_isv(E, f, h, 'None') and _isv(E, f, t, 'Some')) or (_isv(E, f, h, 'Some') and _isv(E, f, t, 'None')):
+        return 'head None xor tail None'
+    if _isv(E, f, h, 'Some'):
+        H = D(inner(h))
+        if _isv(E, f, I(H + ('next',)), 'None') and _eq_ptr(E, f, t, H) == 0:
+            return 'single element but tail != head'
+    if _isv(E, f, t, 'Some'):
+        T = D(inner(t))
+        if _isv(E, f, I(T + ('prev',)), 'None') and _eq_ptr(E, f, h, T) == 0:
+            return 'single element but head != tail'
+    me = some(('ref', NODE))
+    if fn_name == 'LinkedList::remove':
+        pv, nx = I(NODE + ('prev',)), I(NODE + ('next',))
+        member = _isv(E, f, pv, 'Some') or _eq(E, f, h, me) == 1
+        if _isv(E, f, pv, 'None') and _eq(E, f, h, me) == 0 and _isv(E, f, nx, 'Some'):
+            return 'a node that is in no list has a next link'
+        if member and _isv(E, f, nx, 'None') and _eq(E, f, t, me) == 0:
+            return 'last member but tail != node'
+    if fn_name == 'PairingHeap::remove':
+        if _isv(E, f, I(NODE + ('parent',)), 'None') and _eq(E, f, root, me) == 0:
+            return 'a parentless node that is not the root (precondition: member of this heap)'
+    if fn_name == 'PairingHeap::insert':
+        if any(_isv(E, f, I(NODE + (n,)), 'Some') for n in ('parent', 'first_child')):
+            return 'precondition: the inserted node is in no heap'
+    if fn_name == 'meld':
+        for p in ('left', 'right'):
+            if _isv(E, f, I(D(('param', p)) + ('parent',)), 'Some'):
+                return 'precondition: meld takes two roots'
+    if fn_name == 'unlink_prev':
+        if _isv(E, f, I(D(('param', 'node')) + ('next',)), 'Some'):
+            return 'precondition: unlink_prev takes the last sibling'
+    if fn_name == 'add_child':
+        for e in path.events:
+            if e['k'] == 'call' and e.get('name') == 'safe_lesser' and const_of(E, f, e['ret']) == 1 and \
+                    e['args'] == (('ref', D(('param', 'child')) + ('data',)), ('ref', D(('param', 'parent')) + ('data',))):
+                return 'precondition: parent <= child'
+    if fn_name == 'merge_children':
+        cp = I(D(('param', 'first_child')) + ('parent',))
+        if _isv(E, f, cp, 'None'):
+            return 'precondition: children have a parent'
+        for k, v in f.items():
+            if isinstance(k, tuple) and k[:2] == ('bin', 'Eq') and v == ('eq', 0) and cp in (k[2], k[3]):
+                other = k[3] if k[2] == cp else k[2]
+                if other[0] == 'init' and other[1][-1] == 'parent':
+                    return 'siblings with different parents'
+    return None
+
+
+ASSERTING = (('LinkedList::<T>::add_front', 'LinkedList::add_front'), ('LinkedList::<T>::remove_first', 'LinkedList::remove_first'),
+             ('LinkedList::<T>::remove_last', 'LinkedList::remove_last'), ('LinkedList::<T>::is_empty', 'LinkedList::is_empty'),
+             ('LinkedList::<T>::remove', 'LinkedList::remove'), ('PairingHeap::<T>::insert', 'PairingHeap::insert'),
+             ('PairingHeap::<T>::remove', 'PairingHeap::remove'), ('intrusive_pairing_heap::meld', 'meld'),
+             ('intrusive_pairing_heap::add_child', 'add_child'), ('intrusive_pairing_heap::unlink_prev', 'unlink_prev'),
+             ('intrusive_pairing_heap::merge_children', 'merge_children'),
+             ('intrusive_pairing_heap::last_child', 'last_child'), ('intrusive_pairing_heap::maybe_meld', 'maybe_meld'))
+
+
+def assertion_rule(R, E, F, one, cfg):
+    n = 0
+    for suffix, short in ASSERTING:
+        fn = one(suffix)
+        paths = E.run(fn['path'])
+        if not any(p.exit == 'return' for p in paths):
+            R.fail('C20.R5', [fn['path'], 'no-returning-path'], '%s has no returning path' % fn['path'],
+                   '%s:%s' % (fn['file'], fn['line']))
+        for path in paths:
+            if path.exit != 'panic':
+                continue
+            n += 1
+            why = inconsistency_witness(E, path, short)
+            if why:
+                R.ok('C20.R5', '%s|assertion fails only because: %s|%s' % (fn['path'], why, path_cond(E, path)))
+            else:
+                pan = [e for e in path.events if e['k'] == 'panic']
+                R.fail('C20.R5', [fn['path'], 'assertion-fires-on-consistent-structure', path_cond(E, path)],
+                       '%s can panic on a path whose entry facts describe a consistent structure and a respected '
+                       'precondition [%s]' % (fn['path'], path_cond(E, path)),
+                       where(F, pan[-1]) if pan else '%s:%s' % (fn['file'], fn['line']),
+                       {'trace': trace_summary(path)})
+    R.floor('C20.R5 assertion-paths[%s]' % cfg, n, 30)
+
+
+def extra_schemas(R, E, F, one, report, fin, cfg):
+    """schemas of the small helpers the first version left to the induction"""
+    # is_empty == head is None, no write
+    fn = one('LinkedList::<T>::is_empty')
+    for path in E.run(fn['path']):
+        if path.exit != 'return':
+            continue
+        hv = var(E, path, I(SELF + ('head',)))
+        ok = not writes(path) and ((hv == 'None' and path.ret == ('const', 1)) or (hv == 'Some' and path.ret == ('const', 0)))
+        report('C20.R2', fn, path, ok, 'is_empty() == head.is_none(), no write')
+    # is_root == parent is None
+    fn = one('HeapNode::<T>::is_root')
+    for path in E.run(fn['path']):
+        if path.exit != 'return':
+            continue
+        pv = var(E, path, I(SELF + ('parent',)))
+        ok = not writes(path) and ((pv == 'None' and path.ret == ('const', 1)) or (pv == 'Some' and path.ret == ('const', 0)))
+        report('C20.R2', fn, path, ok, 'is_root() == parent.is_none(), no write')
+    # safe_lesser defuses its bomb on the returning path
+    fn = one('intrusive_pairing_heap::safe_lesser')
+    for path in E.run(fn['path']):
+        if path.exit != 'return':
+            continue
+        forgot = any(e['k'] == 'call' and e.get('name') == 'forget' for e in path.events)
+        bombed = any(e['k'] == 'drop' and 'DropBomb' in str(e.get('ty')) for e in path.events)
+        report('C20.R3', fn, path, forgot and not bombed, 'safe_lesser forgets its DropBomb before returning')
+    # maybe_meld: None => right, Some(l) => meld(l, right)
+    fn = one('intrusive_pairing_heap::maybe_meld')
+    for path in E.run(fn['path']):
+        if path.exit != 'return':
+            continue
+        L = ('param', 'left')
+        lv = var(E, path, L)
+        ml = [e for e in path.events if e['k'] == 'call' and e['name'] == 'meld']
+        if lv == 'None':
+            ok = not ml and path.ret == ('param', 'right')
+        else:
+            ok = lv == 'Some' and len(ml) == 1 and ml[0]['args'] == (inner(L), ('param', 'right')) and path.ret == ml[0]['ret']
+        report('C20.R3', fn, path, ok, 'maybe_meld(None, r) == r; maybe_meld(Some(l), r) == meld(l, r)')
+    # last_child walks the sibling list via next and returns the node whose next is None
+    fn = one('intrusive_pairing_heap::last_child')
+    seen_steps = set()
+    for path in E.run(fn['path']):
+        if path.exit != 'return':
+            continue
+        cur = ('param', 'first_child')
+        ok = not writes(path)
+        steps = 0
+        while True:
+            nxt = I(D(cur) + ('next',))
+            v = var(E, path, nxt)
+            if v == 'Some':
+                cur = inner(nxt)
+                steps += 1
+                if steps > 8:
+                    ok = False
+                    break
+                continue
+            ok = ok and v == 'None' and path.ret == cur
+            break
+        seen_steps.add(min(steps, 1))
+        report('C20.R2', fn, path, ok, 'last_child follows next until None and returns that node, no write')
+    for k in (0, 1):
+        if k in seen_steps:
+            R.ok('C20.R2', '%s|returns after %s%d step(s)' % (fn['path'], '>= ' if k else '', k))
+        else:
+            R.fail('C20.R2', [fn['path'], 'walk-does-not-terminate', str(k)],
+                   '%s has no returning path that makes %s%d step(s): the walk does not advance / end'
+                   % (fn['path'], '>= ' if k else '', k), '%s:%s' % (fn['file'], fn['line']))
